@@ -745,12 +745,18 @@ func runStoreStorm(sc scenario) (susp []suspect, nCancels, nFns int) {
 	var cancels []*cancelRec
 	var nextID atomic.Int64
 	var ghostCalls atomic.Int64 // invocations of functions that were never registered
+	var panicked atomic.Value   // message of a panic raised inside the library on a storm goroutine
 	var wg sync.WaitGroup
 	start := make(chan struct{})
 	for ti, prog := range sc.Threads {
 		wg.Add(1)
 		go func(ti int, prog []string) {
 			defer wg.Done()
+			defer func() { // e.g. a nil entry left in the slice by unsynchronised appends, called by Cancel
+				if p := recover(); p != nil {
+					panicked.Store(fmt.Sprint(p))
+				}
+			}()
 			gid := goid.Get()
 			scratch := make([]context.CancelFunc, 0, 6)
 			<-start
@@ -804,6 +810,10 @@ func runStoreStorm(sc scenario) (susp []suspect, nCancels, nFns int) {
 	}
 	close(start)
 	wg.Wait()
+	if p := panicked.Load(); p != nil {
+		susp = append(susp, suspect{"panic:store-storm", fmt.Sprintf("the library panicked during a Register/Cancel/Len storm: %v", p), true})
+		return susp, len(cancels), len(fns)
+	}
 	// a last Cancel and Len when everything is quiet: every function ever registered, exactly the registered number
 	final := &cancelRec{invoked: map[int]int{}, thread: -1}
 	current.Store(goid.Get(), final)
